@@ -26,7 +26,7 @@ fuel exhaustion on one side only).  Every mismatch is shrunk (tools/shrink.py) a
 c.problem("correspondence", "parser.whole", ..).
 
 `tie_parse(c, tier, frac)` is for other checks (layerc.whole); `./check PARSE_TIE quick` runs it alone with the
-theorems of coq/Props/Parse.v and writes evidence/PARSE_TIE.json."""
+theorems of coq/Props/Parse.v, ParseMore.v and writes evidence/PARSE_TIE.json."""
 import itertools, json, os, re, sys
 if __name__ == "__main__":
     sys.path.insert(0, os.path.join(os.path.dirname(os.path.abspath(__file__)), ".."))
@@ -226,6 +226,7 @@ def tie_parse(c, tier, frac=1.0, profile="debug", max_report=8):
         scopes = [(name, [x for x in cases if rng.random() < frac] or cases[:1]) if not name.startswith("corpus") else (name, cases) for name, cases in scopes]
     all_ok = True
     reported = 0
+    shrunk = set()
     total = {"agree": 0, "scope": 0, "both_panic": 0, "mismatch": 0}
     for name, cases in scopes:
         res = run_cases(cases, profile)
@@ -245,6 +246,9 @@ def tie_parse(c, tier, frac=1.0, profile="debug", max_report=8):
                 cls2, det2, hl2, ml2 = classify(o2, d2, profile)
                 if cls2 != "mismatch":
                     o2, d2, det2, hl2, ml2 = o, md, detail, hl, ml
+                if (o2, d2) in shrunk:
+                    continue               # the same minimal document again
+                shrunk.add((o2, d2))
                 c.problem("correspondence", "parser.whole",
                           f"[{name}] parse_document and parse_document_model disagree on {d2!r} opts={o2}\n {det2}",
                           {"line": hl2.replace("parseu ", "parse ", 1), "model_line": ml2[:3000], "opts": o2, "md": hx(d2)})
@@ -261,11 +265,11 @@ def tie_parse(c, tier, frac=1.0, profile="debug", max_report=8):
 def main(tier):
     c = vlib.Check("PARSE_TIE", tier)
     c.phase_translator(ITEMS)
-    if os.path.exists(os.path.join(vlib.COQ, "Props", "Parse.v")):
-        c.phase_proofs("Parse")
+    c.phase_proofs("Parse")
+    c.phase_proofs("ParseMore")
     tie_parse(c, tier)
     c.finish(level="proof",
-             rule="theorems of Props/Parse.v compiled (no assumptions); Model/Parse.v parse_document_model and the compiled parse_document print "
+             rule="theorems of Props/Parse.v and Props/ParseMore.v compiled (no assumptions); Model/Parse.v parse_document_model and the compiled parse_document print "
                   "identical trees (kinds, payloads, source positions; nothing masked) on every document of every scope; non-trivial = document longer than 3 bytes",
              trusted_base=["Coq 8.16.1 kernel + extraction", "rustc", "OCaml driver printer ocaml/d_parse.ml (+ d_inlines.ml / d_blocks.ml node printers) and harness/src/tree.rs print trees in the same layout",
                            "harness op parseu (ops_parse.rs): Unicode oracles (is_whitespace, is_punctuation|is_symbol, default_case_fold) answered by the compiled library",
